@@ -309,7 +309,25 @@ func (vc *VC) havocAll(st *State) {
 			private = append(private, a)
 		}
 	}
-	old := st.heap
+	old := map[string]string{}
+	for k, v := range st.heap {
+		old[k] = v
+	}
+	if len(private) > 0 {
+		// keys only read so far (at their base version) hold private data too
+		var tk []string
+		for k := range st.touched {
+			tk = append(tk, k)
+		}
+		sort.Strings(tk)
+		for _, k := range tk {
+			if _, ok := old[k]; !ok && !vc.heapImm[k] {
+				if srt, ok := vc.heapSort[k]; ok {
+					old[k] = vc.heapName(st, k, srt)
+				}
+			}
+		}
+	}
 	nh := map[string]string{}
 	for k, v := range st.heap {
 		if vc.heapImm[k] {
